@@ -3,7 +3,7 @@ random.Random handed in, so VERIF_SEED reproduces a run; every generated case is
 also stored as plain data (program JSON + concrete step list) for replay."""
 from .prog import targets_ok
 
-AWKWARD = ['a b', 'é', '.h', 'x' * 255, 'y' * 256, 'c.d', '-', '猫']
+AWKWARD = ['a b', 'é', 'e\u0301', '.h', 'x' * 255, 'y' * 256, 'c.d', '-', '猫', 'ab', 'A']
 
 
 class GenCfg:
@@ -32,6 +32,7 @@ class GenCfg:
         self.max_call_depth = 3
         self.spellings = False
         self.p_qspell = 0.06
+        self.p_empty = 0.05     # zero-length outputs
         self.__dict__.update(kw)
 
 
@@ -130,7 +131,8 @@ def gen_program(rng, cfg):
             body = gen_stmts(rng, cfg, fd['idx'], funcs, depth)
             if fd['kind'] == 'bf':
                 if rng.random() >= cfg.p_nocreate:
-                    body.insert(rng.randint(0, len(body)), ['write', ''])
+                    body.insert(rng.randint(0, len(body)),
+                                ['write', '', {'empty': True}] if rng.random() < cfg.p_empty else ['write', ''])
             if rng.random() < cfg.p_raise:
                 body.insert(rng.randint(0, len(body)), ['raise', name])
             elif rng.random() < cfg.p_nonjson:
